@@ -87,8 +87,10 @@ RecHelpers == {[op |-> "rechelper", key |-> k, n |-> c, method |-> me, path |-> 
                  s \in {"h:route", "h:404", "h:405", "h:opt", "mw:m", "late:route"}, v \in {"error", "runtime"}}
 Reqs == IF ReqSel = "C16" THEN ReqsC16 \cup RecHelpers ELSE ReqsC13
 
-CaseOf == [fam |-> "group", cfg |-> [recovery |-> G.rec, name |-> "g"], ops |-> hist, reqs |-> Reqs]
-Emit == (Len(hist) > nbase /\ (EmitAll \/ Len(hist) - nbase >= Depth \/ alpha = "deep")) => PrintT("CASE " \o ToJson(CaseOf))
+\* the request product is printed once (pool line); every case is probed with it
+CaseOf == [fam |-> "group", cfg |-> [recovery |-> G.rec, name |-> "g"], ops |-> hist, reqs |-> <<>>]
+Emit == /\ (Len(hist) = nbase => PrintT("POOL " \o ToJson([pool |-> [reqs |-> Reqs]])))
+        /\ ((Len(hist) > nbase /\ (EmitAll \/ Len(hist) - nbase >= Depth \/ alpha = "deep")) => PrintT("CASE " \o ToJson(CaseOf)))
 
 \* ---- design-level properties
 NamesUnique == \A i, j \in 1..Len(G.order) : i # j => G.order[i] # G.order[j]
